@@ -326,12 +326,188 @@ def rule_r5(prog, res):
     res.floor('R5', 'presence tests in the document writers', n, 3)
 
 
+# ------------------------------------------------------------------- R6
+MUTATORS = ('add', 'update', 'discard', 'remove', 'clear', 'pop',
+            'difference_update', 'intersection_update',
+            'symmetric_difference_update', 'append', 'extend')
+
+
+def rule_r6(prog, res):
+    res.rule('R6', 'the cycle guard set is extended by copy: siblings never '
+             'see each other\'s instances')
+    n = 0
+    for cfq in (HIER, 'spyne.protocol.xml:XmlDocument',
+                'spyne.protocol.cloth.to_parent:ToParentMixin'):
+        c = prog.cls(cfq, required=False)
+        if c is None:
+            continue
+        for nm, f in sorted(c.methods.items()):
+            if 'tags' not in f.params():
+                continue
+            n += 1
+            bad = []
+            for node in walk_no_defs(f.node):
+                if isinstance(node, ast.Call) and isinstance(
+                        node.func, ast.Attribute) and isinstance(
+                        node.func.value, ast.Name) and \
+                        node.func.value.id == 'tags' and \
+                        node.func.attr in MUTATORS:
+                    bad.append((node, 'tags.%s()' % node.func.attr))
+                if isinstance(node, ast.AugAssign) and isinstance(
+                        node.target, ast.Name) and node.target.id == 'tags':
+                    bad.append((node, 'tags %s=' % type(node.op).__name__))
+            # a rebinding before the mutation makes it a private copy
+            rebinds = [x.lineno for x in walk_no_defs(f.node)
+                       if isinstance(x, ast.Assign) and any(
+                           isinstance(t, ast.Name) and t.id == 'tags'
+                           for t in x.targets) and isinstance(
+                           x.value, (ast.BinOp, ast.Call, ast.Set))]
+            bad = [(b, w) for b, w in bad
+                   if not any(l < b.lineno for l in rebinds)]
+            res.ob('R6', f.where, '%s: parameter tags %s' % (
+                f.qualname, 'mutated in place' if bad else
+                'only read or rebound to a copy'),
+                'VIOLATED' if bad else 'ok')
+            for b, w in bad:
+                res.finding('R6', '%s|tags-mutated|%s' % (f.qualname, w),
+                            '%s:%d' % (f.module.relpath, b.lineno),
+                            '%s mutates the caller\'s cycle-guard set (%s): '
+                            'an object referenced from two sibling members '
+                            'or two array items is taken for a cycle and '
+                            'dropped (or the assertion fails) the second '
+                            'time' % (f.qualname, w))
+    res.floor('R6', 'functions carrying the cycle guard', n, 3)
+
+
+# ------------------------------------------------------------------- R7
+def rule_r7(prog, res):
+    res.rule('R7', 'readers take the member table from the class they '
+             'instantiate (same binding of cls)')
+    n = 0
+    for cfq, names in ((HIER, ('_doc_to_object',)),
+                       ('spyne.protocol.xml:XmlDocument',
+                        ('complex_from_element',))):
+        c = prog.cls(cfq, required=False)
+        if c is None:
+            continue
+        for nm in names:
+            f = c.methods.get(nm)
+            if f is None:
+                continue
+            uses = []
+            for call in calls_in(f.node):
+                if call_name(call) in ('get_flat_type_info',
+                                       'get_deserialization_instance',
+                                       'get_simple_type_info',
+                                       'get_simple_type_info_with_prot') and \
+                        isinstance(call.func, ast.Attribute) and isinstance(
+                        call.func.value, ast.Name):
+                    uses.append(call)
+            if not uses:
+                continue
+            uses.sort(key=lambda x: x.lineno)
+            var = uses[0].func.value.id
+            rebinds = [x for x in walk_no_defs(f.node)
+                       if isinstance(x, (ast.Assign, ast.For)) and any(
+                           isinstance(t, ast.Name) and t.id == var
+                           for tt in (x.targets if isinstance(x, ast.Assign)
+                                      else [x.target])
+                           for t in ast.walk(tt))]
+            n += 1
+            late = [r for r in rebinds if r.lineno > uses[0].lineno]
+            mixed = [u for u in uses if u.func.value.id != var]
+            where = '%s:%d' % (f.module.relpath, uses[0].lineno)
+            ok = not late and not mixed
+            res.ob('R7', where, '%s: %s all read %s; rebindings of %s at '
+                   'lines %s' % (f.qualname,
+                                 sorted({call_name(u) for u in uses}), var,
+                                 var, [r.lineno for r in rebinds]),
+                   'ok' if ok else 'VIOLATED', nontrivial=True)
+            for r in late:
+                res.finding('R7', '%s|stale-class|%s' % (
+                    f.qualname, call_name(uses[0])),
+                    '%s:%d' % (f.module.relpath, r.lineno),
+                    '%s derives %s from %s at line %d and rebinds %s '
+                    'afterwards (line %d): the member table belongs to the '
+                    'declared class while the instance is of the class named '
+                    'in the document, so the subclass\'s own members are '
+                    'dropped' % (f.qualname, call_name(uses[0]), var,
+                                 uses[0].lineno, var, r.lineno))
+            for u in mixed:
+                res.finding('R7', '%s|mixed-class|%s' % (
+                    f.qualname, call_name(u)),
+                    '%s:%d' % (f.module.relpath, u.lineno),
+                    '%s reads %s from %s while the instance comes from %s' %
+                    (f.qualname, call_name(u), u.func.value.id, var))
+    res.floor('R7', 'reader functions pairing table and instance', n, 2)
+
+
+# ------------------------------------------------------------------- R8
+def rule_r8(prog, res):
+    res.rule('R8', 'request bytes are joined before they are decoded (no '
+             'per-chunk decode)')
+    n = 0
+    for c in prog.all_classes():
+        if not c.module.name.startswith('spyne.protocol'):
+            continue
+        f = c.methods.get('create_in_document')
+        if f is None:
+            continue
+        n += 1
+        bad = []
+        for node in walk_no_defs(f.node):
+            loopvars = set()
+            if isinstance(node, (ast.GeneratorExp, ast.ListComp,
+                                 ast.SetComp)):
+                for g in node.generators:
+                    if 'in_string' in unparse(g.iter):
+                        loopvars |= {t.id for t in ast.walk(g.target)
+                                     if isinstance(t, ast.Name)}
+                body = [node.elt]
+            elif isinstance(node, ast.For) and 'in_string' in unparse(
+                    node.iter):
+                loopvars = {t.id for t in ast.walk(node.target)
+                            if isinstance(t, ast.Name)}
+                body = node.body
+            else:
+                continue
+            for b in body:
+                for call in ast.walk(b):
+                    if isinstance(call, ast.Call) and isinstance(
+                            call.func, ast.Attribute) and call.func.attr in (
+                            'decode',) and isinstance(
+                            call.func.value, ast.Name) and \
+                            call.func.value.id in loopvars:
+                        bad.append(call)
+                    if isinstance(call, ast.Call) and call_name(call) in (
+                            'str', 'text_type', 'unicode') and len(
+                            call.args) >= 2 and isinstance(
+                            call.args[0], ast.Name) and \
+                            call.args[0].id in loopvars:
+                        bad.append(call)
+        res.ob('R8', f.where, '%s: %s' % (
+            f.qualname, 'decodes chunk by chunk' if bad else
+            'no decode inside an iteration over ctx.in_string'),
+            'VIOLATED' if bad else 'ok')
+        for call in bad:
+            res.finding('R8', '%s|per-chunk-decode' % f.qualname,
+                        '%s:%d' % (f.module.relpath, call.lineno),
+                        '%s decodes every chunk of ctx.in_string on its own '
+                        '(%s): a multi-byte character split across two '
+                        'transport chunks raises or is corrupted' % (
+                            f.qualname, unparse(call)[:50]))
+    res.floor('R8', 'create_in_document implementations', n, 5)
+
+
 def run(prog, res, tier):
     res.run_rule(rule_r1, prog, res)
     res.run_rule(rule_r2, prog, res)
     res.run_rule(rule_r3, prog, res)
     res.run_rule(rule_r4, prog, res)
     res.run_rule(rule_r5, prog, res)
+    res.run_rule(rule_r6, prog, res)
+    res.run_rule(rule_r7, prog, res)
+    res.run_rule(rule_r8, prog, res)
 
 
 _H = 'spyne/protocol/dictdoc/hier.py'
@@ -340,6 +516,31 @@ _J = 'spyne/protocol/json.py'
 _Y = 'spyne/protocol/yaml.py'
 
 MUTANTS = [
+    Mutant('cycle-guard-shared', 'R6', 'fire', _H,
+           in_func('HierDictDocument._get_member_pairs',
+                   "tags = tags | {id(inst)}", "tags.add(id(inst))"),
+           'tags-mutated'),
+    Mutant('cycle-guard-copied-then-added', 'R6', 'benign', _H,
+           in_func('HierDictDocument._get_member_pairs',
+                   "tags = tags | {id(inst)}",
+                   "tags = set(tags)\n        tags.add(id(inst))"), None),
+    Mutant('member-table-before-wrapper', 'R7', 'fire', _H,
+           in_func('HierDictDocument._doc_to_object',
+                   "        cls_attrs = self.get_cls_attrs(cls)\n"
+                   "        if not self.ignore_wrappers",
+                   "        flat_type_info = cls.get_flat_type_info(cls)\n"
+                   "        cls_attrs = self.get_cls_attrs(cls)\n"
+                   "        if not self.ignore_wrappers"), 'stale-class'),
+    Mutant('yaml-per-chunk-decode', 'R8', 'fire', _Y,
+           in_func('YamlDocument.create_in_document',
+                   "s = b''.join(ctx.in_string).decode(in_string_encoding)",
+                   "s = u''.join(c.decode(in_string_encoding) "
+                   "for c in ctx.in_string)"), 'per-chunk-decode'),
+    Mutant('yaml-join-by-loop', 'R8', 'benign', _Y,
+           in_func('YamlDocument.create_in_document',
+                   "s = b''.join(ctx.in_string).decode(in_string_encoding)",
+                   "s = b''.join(c for c in ctx.in_string)"
+                   ".decode(in_string_encoding)"), None),
     Mutant('hier-bare-indexed', 'R1', 'fire', _H,
            in_func('HierDictDocument.serialize',
                    r"        if ctx\.descriptor\.is_out_bare\(\):\n"
